@@ -312,7 +312,7 @@ def main(prop):
                       "each chromosome name has a strict plurality in its component (ties are broken by set order)",
                       "biccs exactness is C15's subject (definition-level checker on the implementation's output, not a general theorem)"]
     ck.canon = ["L lines compared as a multiset", "BO/NO read from the written S lines", "log output ignored"]
-    ck.lean_build({"C06": ["Gaftools.Props.C06", "Gaftools.Props.C06b", "Gaftools.Props.C06c", "Gaftools.Props.C06d", "Gaftools.Props.C06e", "Gaftools.Props.C06f", "Gaftools.Props.C06g", "Gaftools.Props.TieA2", "Gaftools.Props.TieA9", "Gaftools.Props.TieA16"], "C07": ["Gaftools.Props.C07", "Gaftools.Props.C07b", "Gaftools.Props.C07c", "Gaftools.Props.GfaText", "Gaftools.Props.TieA", "Gaftools.Props.TieA5", "Gaftools.Props.TieA16", "Gaftools.Props.TieA20", "Gaftools.Props.TieA21"], "C18": ["Gaftools.Props.C18", "Gaftools.Props.C18b", "Gaftools.Props.TieA2", "Gaftools.Props.TieA9", "Gaftools.Props.TieA16"]}[prop])
+    ck.lean_build({"C06": ["Gaftools.Props.C06", "Gaftools.Props.C06b", "Gaftools.Props.C06c", "Gaftools.Props.C06d", "Gaftools.Props.C06e", "Gaftools.Props.C06f", "Gaftools.Props.C06g", "Gaftools.Props.TieA2", "Gaftools.Props.TieA9", "Gaftools.Props.TieA16", "Gaftools.Props.TieA23"], "C07": ["Gaftools.Props.C07", "Gaftools.Props.C07b", "Gaftools.Props.C07c", "Gaftools.Props.GfaText", "Gaftools.Props.TieA", "Gaftools.Props.TieA5", "Gaftools.Props.TieA16", "Gaftools.Props.TieA20", "Gaftools.Props.TieA21", "Gaftools.Props.TieA28"], "C18": ["Gaftools.Props.C18", "Gaftools.Props.C18b", "Gaftools.Props.TieA2", "Gaftools.Props.TieA9", "Gaftools.Props.TieA16", "Gaftools.Props.TieA23", "Gaftools.Props.TieA28"]}[prop])
     ck.audit("%s.lean" % prop)
     rng = ck.rng
     quick = ck.tier == "quick"
